@@ -39,7 +39,7 @@ class PathEnd(Exception):
 # --------------------------------------------------------------------------- ints / bools
 
 def is_sym(x):
-    return isinstance(x, (SInt, SBool, SNum, SStr))
+    return isinstance(x, (SInt, SBool, SNum, SStr, SEnum))
 
 
 def zint(x):
@@ -1044,3 +1044,58 @@ def decimal_view(s):
             scale = scale * sc
             val = val + v / scale
     return _simp(val)
+
+
+class SEnum:
+    """A symbolic member of an Enum class: `t` is the z3 Int index into list(cls)."""
+    __slots__ = ("cls", "t")
+
+    def __init__(self, cls, t):
+        self.cls, self.t = cls, t
+
+    def members(self):
+        return list(self.cls)
+
+    def __eq__(self, o):
+        if isinstance(o, SEnum):
+            return mkbool(self.t == o.t) if o.cls is self.cls else False
+        if isinstance(o, self.cls):
+            return mkbool(self.t == self.members().index(o))
+        return False
+
+    def __ne__(self, o):
+        return snot(self == o)
+
+    def __hash__(self):
+        raise Inapplicable("hash of a symbolic enum member outside the interpreter")
+
+    def __bool__(self):
+        return True
+
+    @property
+    def value(self):
+        raise Inapplicable("value of a symbolic enum member")
+
+    def __repr__(self):
+        return f"SEnum({self.cls.__name__}, {self.t})"
+
+
+class Opaque:
+    """An opaque piece of text produced by a function under contract (e.g. str(size)); `tag`
+    identifies the producer, `payload` the abstract arguments; `alphabet` what it may contain."""
+    __slots__ = ("tag", "payload", "alphabet", "_lo")
+
+    def __init__(self, tag, payload, alphabet, lo=1):
+        self.tag, self.payload, self.alphabet, self._lo = tag, payload, frozenset(alphabet), lo
+
+    def lo(self):
+        return self._lo
+
+    def hi(self):
+        return None
+
+    def chars(self):
+        return self.alphabet
+
+    def __repr__(self):
+        return f"<{self.tag}>"
